@@ -2,6 +2,7 @@
 C11, malformed floating constants: an exponent without digits (`1e`, `1e+`, `1.5e-`, `.5E`, `1.e+`).
 -/
 import NormModel.Proofs.Floats
+import NormModel.Proofs.HexFloats
 namespace Norm
 open Spec
 
@@ -417,6 +418,309 @@ theorem multiple_dots_reported (u : Uni) (ip fp more : List Char) (hne : ip ≠ 
         exact ⟨s2, rfl, n2, by rw [n3]; rfl⟩
   obtain ⟨s', h1, h2, h3⟩ := hpf
   refine ⟨s', mkTok "CONSTANT" s s' (some txt), ?_, rfl, rfl, rfl, rfl, h2, h3⟩
+  unfold trySubLexers
+  rw [h1]
+
+/-! ### hexadecimal floating constants whose binary exponent has no digits -/
+
+/-- the exponent group of the hexadecimal pattern on `[pP][+-]?` followed by something that cannot continue it -/
+theorem matchBinExp_nodigits (u : Uni) (p : Char) (hp : p = 'p' ∨ p = 'P') (sign : Option Char)
+    (hsign : ∀ s, sign = some s → s = '+' ∨ s = '-') (after : List Char)
+    (ha : ∀ c, after.head? = some c → u.isH c = false ∧ isP c = false ∧ c ≠ '.' ∧ c ≠ '+' ∧ c ≠ '-') :
+    matchExp isP u.isH (tailHex u) (p :: sign.toList ++ after) = p :: sign.toList := by
+  have hisP : isP p = true := by rcases hp with h | h <;> rw [h] <;> decide
+  have haD : after.takeWhile u.isH = [] := by
+    cases after with
+    | nil => rfl
+    | cons c tl => simp [List.takeWhile, (ha c rfl).1]
+  have hatail : tailHex u after = 0 := by
+    unfold tailHex
+    cases after with
+    | nil => rfl
+    | cons c tl =>
+      obtain ⟨h1, _, h3, _, _⟩ := ha c rfl
+      have h3' : (c == '.') = false := by simp [h3]
+      simp [List.takeWhile, h1, h3']
+  have hiter0 : ∀ fuel, expIter isP (tailHex u) fuel after = [] := by
+    intro fuel
+    cases fuel with
+    | zero => rfl
+    | succ fuel =>
+      unfold expIter
+      cases after with
+      | nil => rfl
+      | cons c tl => simp [(ha c rfl).2.1]
+  unfold matchExp spanP
+  cases hs : sign with
+  | none =>
+    simp only [Option.toList_none, List.cons_append, List.nil_append]
+    have h1 : (p :: after).takeWhile isP = [p] := by
+      cases after with
+      | nil => simp [List.takeWhile, hisP]
+      | cons c tl => simp [List.takeWhile, hisP, (ha c rfl).2.1]
+    have h2 : (p :: after).dropWhile isP = after := by
+      rw [List.dropWhile_cons]; simp only [hisP, ↓reduceIte]
+      cases after with
+      | nil => rfl
+      | cons c tl => simp [List.dropWhile_cons, (ha c rfl).2.1]
+    simp only [h1, h2, List.isEmpty_cons, Bool.false_eq_true, ↓reduceIte]
+    cases after with
+    | nil =>
+      simp only [List.takeWhile_nil, List.isEmpty_nil, Bool.not_true, Bool.false_eq_true, ↓reduceIte]
+      simp [expIter, hisP, tailHex]
+    | cons c tl =>
+      obtain ⟨_, _, _, h4, h5⟩ := ha c rfl
+      have hns : (c == '+' || c == '-') = false := by simp [h4, h5]
+      simp only [hns, Bool.false_eq_true, ↓reduceIte, haD, List.isEmpty_nil, Bool.not_true]
+      unfold expIter
+      simp only [hisP, ↓reduceIte, hns, Bool.false_eq_true, hatail, List.take_zero, List.drop_zero, List.append_nil]
+      rw [hiter0]
+      simp
+  | some sg =>
+    have hsg := hsign sg hs
+    have hsgP : isP sg = false := by rcases hsg with rfl | rfl <;> decide
+    have hsgD : u.isH sg = false := by
+      rcases hsg with rfl | rfl <;> (rw [isH_ascii u (by decide)]; decide)
+    have hsgb : (sg == '+' || sg == '-') = true := by rcases hsg with rfl | rfl <;> decide
+    simp only [Option.toList_some, List.cons_append, List.nil_append]
+    have h1 : (p :: sg :: after).takeWhile isP = [p] := by simp [List.takeWhile, hisP, hsgP]
+    have h2 : (p :: sg :: after).dropWhile isP = sg :: after := by simp [List.dropWhile, hisP, hsgP]
+    simp only [h1, h2, List.isEmpty_cons, Bool.false_eq_true, ↓reduceIte, hsgb, haD, List.isEmpty_nil]
+    have hD2 : (sg :: after).takeWhile u.isH = [] := by simp [List.takeWhile, hsgD]
+    simp only [hD2, List.isEmpty_nil, Bool.not_true, Bool.false_eq_true, ↓reduceIte]
+    unfold expIter
+    simp only [hisP, ↓reduceIte, hsgb, hatail, List.take_zero, List.drop_zero, List.append_nil]
+    rw [hiter0]
+    simp
+
+theorem goodBinExponent_nodigits (u : Uni) (p : Char) (hp : p = 'p' ∨ p = 'P') (sign : Option Char)
+    (hsign : ∀ s, sign = some s → s = '+' ∨ s = '-') : goodBinExponent u (p :: sign.toList) = false := by
+  have hisP : isP p = true := by rcases hp with h | h <;> rw [h] <;> decide
+  unfold goodBinExponent
+  cases hs : sign with
+  | none => simp [hisP]
+  | some sg =>
+    have hsgb : (sg == '+' || sg == '-') = true := by rcases hsign sg hs with rfl | rfl <;> decide
+    simp [hisP, hsgb]
+
+/-- the float parser, once the mantissa, the exponent group (without digits) and the suffix group are known -/
+theorem floatLogic_hex_badexp (u : Uni) (line col : Nat) (x : Char) (hx : x = 'x' ∨ x = 'X') (mant E L rest : List Char)
+    (hmant : hexMantissa u (mant ++ (E ++ (L ++ rest))) = some (mant, E ++ (L ++ rest)))
+    (hme : matchExp isP u.isH (tailHex u) (E ++ (L ++ rest)) = E)
+    (hsuf : floatSuffix u (L ++ rest) = L)
+    (hmh : ∀ c, (mant ++ (E ++ (L ++ rest))).head? = some c → (c == 'x' || c == 'X') = false)
+    (hmantb : ∀ c ∈ mant, (Generated.hexadecimalDigits.toList ++ ['.']).contains c = true)
+    (hEne : E.isEmpty = false) (hbad : goodBinExponent u E = false) :
+    floatLogic u line col ('0' :: x :: (mant ++ (E ++ (L ++ rest)))) =
+      .tok ⟨.hexadecimal, '0' :: x :: mant, E, L⟩
+        (some (mkDiag "BAD_EXPONENT" .error [⟨line, col + ('0' :: x :: mant).length, some (E.length + L.length), none⟩])) := by
+  obtain ⟨x1, x2, x3, x4, x5, x6⟩ := x_facts u hx
+  have h0 : u.isD '0' = true := by rw [isD_ascii u (by decide)]; decide
+  have htwD : ('0' :: x :: (mant ++ (E ++ (L ++ rest)))).takeWhile u.isD = ['0'] := by
+    simp only [List.takeWhile_cons, h0, x1, ↓reduceIte, Bool.false_eq_true]
+  have hdwD : ('0' :: x :: (mant ++ (E ++ (L ++ rest)))).dropWhile u.isD = x :: (mant ++ (E ++ (L ++ rest))) := by
+    simp only [List.dropWhile_cons, h0, x1, ↓reduceIte, Bool.false_eq_true]
+  have hm1 : matchFloatExp u ('0' :: x :: (mant ++ (E ++ (L ++ rest)))) = none := by
+    unfold matchFloatExp spanP
+    simp only [htwD, hdwD]
+    have : matchExp isE u.isD (tailDec u) (x :: (mant ++ (E ++ (L ++ rest)))) = [] :=
+      matchExp_nil (by intro c hc; simp at hc; subst hc; exact x3)
+    simp [this]
+  have hm2 : matchFloatFrac u ('0' :: x :: (mant ++ (E ++ (L ++ rest)))) = none := by
+    unfold matchFloatFrac spanP
+    simp only [htwD, hdwD]
+    split
+    · rfl
+    · rename_i c r hc
+      split at hc
+      · rename_i r' heq
+        simp only [List.cons.injEq] at heq
+        exact absurd heq.1 x4
+      · cases hc
+  have hm3 : matchFloatHex u ('0' :: x :: (mant ++ (E ++ (L ++ rest)))) =
+      some ⟨.hexadecimal, '0' :: x :: mant, E, L⟩ := by
+    unfold matchFloatHex
+    simp only
+    have tx : (x :: (mant ++ (E ++ (L ++ rest)))).takeWhile (fun c => c == 'x' || c == 'X') = [x] := by
+      have := takeWhile_app (p := fun c => c == 'x' || c == 'X') (s := [x]) (rest := mant ++ (E ++ (L ++ rest)))
+        (by intro c hc; simp at hc; subst hc; exact x5) hmh
+      simpa using this
+    have dx : (x :: (mant ++ (E ++ (L ++ rest)))).dropWhile (fun c => c == 'x' || c == 'X') = mant ++ (E ++ (L ++ rest)) := by
+      have := dropWhile_app (p := fun c => c == 'x' || c == 'X') (s := [x]) (rest := mant ++ (E ++ (L ++ rest)))
+        (by intro c hc; simp at hc; subst hc; exact x5) hmh
+      simpa using this
+    rw [tx, dx, hmant]
+    simp only [hme]
+    have : (E ++ (L ++ rest)).drop E.length = L ++ rest := by simp
+    rw [this, hsuf]
+    simp
+  unfold floatLogic
+  simp only [hm1, hm2, hm3]
+  have hstrip := strip_hexconst x hx mant hmantb
+  simp [hEne, hstrip, hbad]
+  intro h1 h2
+  rcases hx with h | h
+  · exact absurd h h1
+  · exact absurd h h2
+
+/-- the members of the family: `0[xX]`, a hexadecimal mantissa, `[pP][+-]?`, and `l`/`L` or nothing -/
+structure BadHexFloat where
+  x : Char
+  ip : List Char
+  frac : Option (List Char)
+  p : Char
+  sign : Option Char
+  sfx : String
+deriving Repr
+
+def BadHexFloat.WF (k : BadHexFloat) : Prop :=
+  (k.x = 'x' ∨ k.x = 'X') ∧ (∀ c ∈ k.ip, c ∈ hexDigits) ∧ fracOK k.ip k.frac ∧ (k.p = 'p' ∨ k.p = 'P') ∧
+  (∀ s, k.sign = some s → s = '+' ∨ s = '-') ∧ (k.sfx = "" ∨ k.sfx = "l" ∨ k.sfx = "L")
+def BadHexFloat.mant (k : BadHexFloat) : List Char := k.ip ++ fracText k.frac
+def BadHexFloat.exp (k : BadHexFloat) : List Char := k.p :: k.sign.toList
+def BadHexFloat.render (k : BadHexFloat) : List Char := '0' :: k.x :: (k.mant ++ (k.exp ++ k.sfx.toList))
+
+theorem floatLogic_badhex (u : Uni) (k : BadHexFloat) (hk : k.WF) (rest : List Char) (hb : boundaryOK rest)
+    (line col : Nat) :
+    floatLogic u line col (k.render ++ rest) =
+      .tok ⟨.hexadecimal, '0' :: k.x :: k.mant, k.exp, k.sfx.toList⟩
+        (some (mkDiag "BAD_EXPONENT" .error
+          [⟨line, col + ('0' :: k.x :: k.mant).length, some (k.exp.length + k.sfx.toList.length), none⟩])) := by
+  obtain ⟨hx, hip, hfr, hp, hsign, hs⟩ := hk
+  have hLw : ∀ c ∈ k.sfx.toList, c ∈ wordChars := by
+    rcases hs with h | h | h <;> rw [h] <;> decide
+  have hLhead : ∀ c, (k.sfx.toList ++ rest).head? = some c → u.isH c = false ∧ isP c = false ∧ c ≠ '.' ∧ c ≠ '+' ∧ c ≠ '-' := by
+    intro c hc
+    cases hl : k.sfx.toList with
+    | nil =>
+      rw [hl] at hc; simp only [List.nil_append] at hc
+      obtain ⟨h1, _, h3, _, _, h6, h7, h8⟩ := boundary_head u hb c hc
+      refine ⟨h3, ?_, h6, h7, h8⟩
+      cases hpc : isP c
+      · rfl
+      · exfalso
+        unfold isP at hpc
+        simp only [Bool.or_eq_true, beq_iff_eq] at hpc
+        have : u.isW c = true := by rcases hpc with rfl | rfl <;> exact word_facts u (by decide)
+        rw [h1] at this; cases this
+    | cons d tl =>
+      rw [hl] at hc; simp only [List.cons_append, List.head?_cons, Option.some.injEq] at hc
+      have : d = 'l' ∨ d = 'L' := by
+        rcases hs with h | h | h <;> rw [h] at hl <;> simp at hl
+        · exact Or.inl hl.1.symm
+        · exact Or.inr hl.1.symm
+      subst hc
+      rcases this with rfl | rfl
+      · exact ⟨by rw [isH_ascii u (by decide)]; decide, by decide, by decide, by decide, by decide⟩
+      · exact ⟨by rw [isH_ascii u (by decide)]; decide, by decide, by decide, by decide, by decide⟩
+  have hme := matchBinExp_nodigits u k.p hp k.sign hsign (k.sfx.toList ++ rest) hLhead
+  have hsuf : floatSuffix u (k.sfx.toList ++ rest) = k.sfx.toList := by
+    unfold floatSuffix
+    apply takeWhile_app
+    · intro c hc; simp [word_facts u (hLw c hc)]
+    · intro c hc
+      obtain ⟨h1, _, _, _, _, h6, _⟩ := boundary_head u hb c hc
+      simp [h1, h6]
+  have hEhead : ∀ c, (k.exp ++ (k.sfx.toList ++ rest)).head? = some c → u.isH c = false ∧ c ≠ '.' := by
+    intro c hc
+    simp only [BadHexFloat.exp, List.cons_append, List.head?_cons, Option.some.injEq] at hc
+    subst hc
+    rcases hp with h | h <;> rw [h]
+    · exact ⟨by rw [isH_ascii u (by decide)]; decide, by decide⟩
+    · exact ⟨by rw [isH_ascii u (by decide)]; decide, by decide⟩
+  have hmant := hexMantissa_valid u k.ip k.frac (k.exp ++ (k.sfx.toList ++ rest)) hip hfr hEhead
+  have hmh : ∀ c, (k.mant ++ (k.exp ++ (k.sfx.toList ++ rest))).head? = some c → (c == 'x' || c == 'X') = false := by
+    intro c hc
+    unfold BadHexFloat.mant at hc
+    cases hipl : k.ip with
+    | cons a as =>
+      rw [hipl] at hc; simp at hc; subst hc
+      exact (hexbucket a (hip a (by rw [hipl]; simp))).2.1
+    | nil =>
+      rw [hipl] at hc
+      cases hfrac : k.frac with
+      | some fp => rw [hfrac] at hc; simp [fracText] at hc; subst hc; decide
+      | none => rw [hfrac] at hfr; simp only [fracOK] at hfr; exact absurd hipl hfr
+  have hmantb : ∀ c ∈ k.mant, (Generated.hexadecimalDigits.toList ++ ['.']).contains c = true := by
+    intro c hc
+    unfold BadHexFloat.mant at hc
+    rcases List.mem_append.mp hc with h | h
+    · exact (hexbucket c (hip c h)).1
+    · cases hfrac : k.frac with
+      | none => rw [hfrac] at h; simp [fracText] at h
+      | some fp =>
+        rw [hfrac] at h hfr
+        simp only [fracOK] at hfr
+        simp only [fracText] at h
+        rcases List.mem_cons.mp h with rfl | h
+        · decide
+        · exact (hexbucket c (hfr.1 c h)).1
+  have hcore := floatLogic_hex_badexp u line col k.x hx k.mant k.exp k.sfx.toList rest
+    (by simpa [BadHexFloat.mant] using hmant) hme hsuf hmh hmantb (by simp [BadHexFloat.exp])
+    (goodBinExponent_nodigits u k.p hp k.sign hsign)
+  have hsrc : k.render ++ rest = '0' :: k.x :: (k.mant ++ (k.exp ++ (k.sfx.toList ++ rest))) := by
+    simp [BadHexFloat.render, List.append_assoc]
+  rw [hsrc]; exact hcore
+
+theorem badHexFloat_plain (k : BadHexFloat) (hk : k.WF) : ∀ c ∈ k.render, plainChar c := by
+  obtain ⟨hx, hip, hfr, hp, hsign, hs⟩ := hk
+  intro c hc
+  simp only [BadHexFloat.render, BadHexFloat.mant, BadHexFloat.exp, List.mem_cons, List.mem_append, Option.mem_toList] at hc
+  rcases hc with rfl | rfl | (hc | hc) | (rfl | hc) | hc
+  · unfold plainChar; decide
+  · rcases hx with h | h <;> rw [h] <;> (unfold plainChar; decide)
+  · exact plain_of_word (hex_sub_word c (hip c hc))
+  · cases hfrac : k.frac with
+    | none => rw [hfrac] at hc; simp [fracText] at hc
+    | some fp =>
+      rw [hfrac] at hc hfr
+      simp only [fracText, List.mem_cons] at hc
+      rcases hc with rfl | hc
+      · unfold plainChar; decide
+      · exact plain_of_word (hex_sub_word c (hfr.1 c hc))
+  · rcases hp with h | h <;> rw [h] <;> (unfold plainChar; decide)
+  · rcases hsign c hc with rfl | rfl <;> (unfold plainChar; decide)
+  · have : c ∈ wordChars := by
+      rcases hs with h | h | h <;> rw [h] at hc <;> simp at hc
+      · subst hc; decide
+      · subst hc; decide
+    exact plain_of_word this
+
+/-- **Malformed family "exponent without digits", hexadecimal**: `0[xX]`, a hexadecimal mantissa (digits on at least one
+side of an optional dot), `[pP][+-]?` and `l`/`L` or nothing — `0x1p`, `0x1.8p+`, `0X.8P-l` —: one CONSTANT token and
+exactly one diagnostic, BAD_EXPONENT from the exponent letter to the end (repaired in /repo by ed0ba8c; before, such a
+constant was accepted silently). -/
+theorem bad_hex_exponent_reported (u : Uni) (k : BadHexFloat) (hk : k.WF) (rest : List Char) (hb : boundaryOK rest)
+    (s : LexSt) (hr : s.rest = k.render ++ rest) :
+    ∃ s' t, trySubLexers u s = .ok (some (s', t)) ∧ t.type = "CONSTANT" ∧
+      t.value = some (String.ofList k.render) ∧ t.line = s.line ∧ t.col = s.col ∧
+      s'.rest = rest ∧
+      s'.diags = s.diags ++ [mkDiag "BAD_EXPONENT" .error
+        [⟨s.line, s.col + ('0' :: k.x :: k.mant).length, some (k.exp.length + k.sfx.toList.length), none⟩]] := by
+  have hfl := floatLogic_badhex u k hk rest hb s.line s.col
+  have hlen : ('0' :: k.x :: k.mant).length + k.exp.length + k.sfx.toList.length = k.render.length := by
+    simp [BadHexFloat.render, List.length_append]; omega
+  let d := mkDiag "BAD_EXPONENT" .error
+        [⟨s.line, s.col + ('0' :: k.x :: k.mant).length, some (k.exp.length + k.sfx.toList.length), none⟩]
+  obtain ⟨n1, n2, n3⟩ := popN_plain k.render rest (s.addDiag d) hr (badHexFloat_plain k hk)
+  have hpf : ∃ s', parseFloat u s = some (s', mkTok "CONSTANT" s s' (some k.render)) ∧ s'.rest = rest ∧
+      s'.diags = s.diags ++ [d] := by
+    unfold parseFloat
+    rw [hr]
+    have hkr : k.render ++ rest = '0' :: (k.x :: (k.mant ++ (k.exp ++ k.sfx.toList)) ++ rest) := by
+      simp [BadHexFloat.render]
+    rw [hkr]
+    simp only
+    rw [← hkr, hfl]
+    simp only [LexSt.addDiag?, hlen]
+    cases hpn : popN k.render.length (s.addDiag d) with
+    | mk s2 r2 =>
+      rw [hpn] at n1 n2 n3
+      simp only at n1 n2 n3
+      subst n1
+      exact ⟨s2, rfl, n2, by rw [n3]; rfl⟩
+  obtain ⟨s', h1, h2, h3⟩ := hpf
+  refine ⟨s', mkTok "CONSTANT" s s' (some k.render), ?_, rfl, rfl, rfl, rfl, h2, h3⟩
   unfold trySubLexers
   rw [h1]
 
